@@ -12,6 +12,7 @@ import tempfile
 import zlib
 
 from .. import common, cli
+from .. import containers as C
 from ..ref import dskfs, tape
 
 PROP = "C11"
@@ -111,9 +112,28 @@ def check_case(case):
         if status != 0:
             bad("command failed: {}".format(str(status).split()[0]), "exit 0", "{} {}".format(status, out[-100:]))
         got = {o: (open("out." + o, "rb").read() if os.path.exists("out." + o) else None) for o in ("bin", "cas", "dsk")}
+        # the tool's own listing of what it wrote (what a user of file_util would see)
+        tool = {}
+        for o in ("cas", "dsk"):
+            if got[o] is not None and (o == "cas" or len(case["out"]) != 2):
+                try:
+                    from cocoasm.virtualfiles.virtual_file import VirtualFile
+                    from cocoasm.virtualfiles.source_file import SourceFile, SourceFileType
+                    vf = VirtualFile(SourceFile("out." + o, file_type=SourceFileType.BINARY))
+                    vf.open_virtual_file()
+                    tool[o] = (vf.virtual_file_type.name if vf.virtual_file_type else None, [C.listed_to_dict(f) for f in vf.list_files()])
+                except Exception as e:
+                    tool[o] = ("ERROR " + type(e).__name__, [])
     finally:
         os.chdir(cwd)
         shutil.rmtree(td, ignore_errors=True)
+    for o, (kind, fs) in tool.items():
+        want_kind = "CASSETTE" if o == "cas" else "DISK"
+        if kind != want_kind:
+            bad("{}: the tool lists its own image as {}".format(o, "another kind" if not str(kind).startswith("ERROR") else "unreadable"), want_kind, kind)
+        elif len(fs) != 1 or bytes(fs[0]["data"]) != image or fs[0]["load"] != origin or fs[0]["exec"] not in exec_ok or fs[0]["type"] != 2:
+            bad("{}: the tool's own listing differs from the program".format(o), "1 ML file, {} bytes, load {:04X}".format(len(image), origin),
+                "{} file(s) {}".format(len(fs), [(len(f["data"]), f["load"], f["exec"]) for f in fs][:2]))
     for o in ("bin", "cas", "dsk"):
         if o not in case["out"]:
             if got[o] is not None:
